@@ -454,8 +454,18 @@ def execute(desc):
     stats['faults'][name] = stats['faults'].get(name, 0) + 1
 
   y0 = np.array(series[desc['init_y']])
-  objs = {0: _Tracked(tbrmmdiagnostics.TBRMMDiagnostics(y0, new_par()),
-                      y0.copy(), None, par_kwargs)}
+  try:
+    first = tbrmmdiagnostics.TBRMMDiagnostics(y0, new_par())
+  except Exception as e:  # pylint: disable=broad-except
+    # the library refuses this treatment series (or these parameters)
+    # outright: what it accepts is not C08's business, nothing to drive
+    stats['skipped']['construction_refused_' + type(e).__name__] = 1
+    stats['states'] = []
+    stats['transitions'] = []
+    return {'violation': None, 'digest': core.digest_of(['refused']),
+            'signature': core.digest_of(['refused']), 'nontrivial': False,
+            'stats': stats}
+  objs = {0: _Tracked(first, y0.copy(), None, par_kwargs)}
   events = []
   absig = []
   viol = None
@@ -476,15 +486,15 @@ def execute(desc):
     if kind == 'churn':
       base_series = series[op['s']]
       for j in range(op['n']):
-        tmp = tbrmmdiagnostics.TBRMMDiagnostics(
-            np.array(base_series, dtype=float) * (1.0 + j), new_par())
         try:
+          tmp = tbrmmdiagnostics.TBRMMDiagnostics(
+              np.array(base_series, dtype=float) * (1.0 + j), new_par())
           tmp.x = np.array(base_series[::-1], dtype=float) + j
           tmp.bbtest  # pylint: disable=pointless-statement
           tmp.required_impact  # pylint: disable=pointless-statement
         except Exception:  # pylint: disable=broad-except
           pass
-        del tmp
+        tmp = None
       fault('churn_of_short_lived_objects')
       events.append([step, kind, op['n']])
       absig.append((kind,))
@@ -492,9 +502,13 @@ def execute(desc):
     if kind == 'new':
       yn = np.array(series[op['s']])
       pk = par2_kwargs if op.get('p') else par_kwargs
-      objs[op['id']] = _Tracked(
-          tbrmmdiagnostics.TBRMMDiagnostics(yn, new_par(pk)), yn.copy(), None,
-          pk)
+      try:
+        sib = tbrmmdiagnostics.TBRMMDiagnostics(yn, new_par(pk))
+      except Exception:  # pylint: disable=broad-except
+        stats['skipped']['sibling_refused'] = 1
+        events.append([step, kind, op['id'], 'refused'])
+        continue
+      objs[op['id']] = _Tracked(sib, yn.copy(), None, pk)
       fault('sibling_object_built')
       if op.get('p'):
         probe('sibling_with_other_parameters')
@@ -503,7 +517,9 @@ def execute(desc):
       continue
     t = objs.get(op.get('o', 0))
     if t is None:
-      raise RuntimeError('op refers to an object that does not exist')
+      # its creation was refused by the library (or shrunk away)
+      events.append([step, kind, 'no such object'])
+      continue
     obj = t.obj
     ev = None
     if kind in ('set_x', 'set_y'):
